@@ -62,17 +62,28 @@ def atmpl_spaces(base, names, alphabet, **kw):
     return [dict(base, sep='U', gen='atmpl', tmpl=TEMPLATES[n], tname=n, alphabet=list(alphabet), **kw) for n in names]
 
 
-def std_tmpl_spaces(base, q, variants=True, names=None, **kw):
+def std_tmpl_spaces(base, q, variants=True, names=None, cind=False, **kw):
     """the standard template spaces of a wrap-level property: quick: three cheap templates; thorough: all of them,
-    plus (variants) break_words off and symbolic indents on the multi-word ones"""
+    plus (variants) break_words off and symbolic indents on the multi-word ones.  cind: also realistic concrete
+    multi-column indent pairs (hanging indent, leading indent, bullet) -- the symbolic indents used elsewhere are one
+    or two characters long, too short for bugs that need `subsequent - initial >= 2 columns`."""
+    cinds = [('', '    '), ('      ', ''), ('* ', '  ')]
     if q:
-        return tmpl_spaces(base, names or ['short', 'longword', 'crlf'], **kw)
+        out = tmpl_spaces(base, names or ['short', 'longword', 'crlf'], **kw)
+        if cind:
+            for ci in cinds:
+                out += tmpl_spaces(dict(base, cind=ci, ind='none'), ['paras'], **kw)
+        return out
     names = names or [n for n in TEMPLATES if n != 'short']
     out = tmpl_spaces(base, names, **kw)
     multi = [n for n in names if n in ('sentence', 'paras', 'hyphens', 'wide')]
     if variants:
         out += tmpl_spaces(dict(base, bw=False), multi, **kw)
         out += tmpl_spaces(dict(base, ind='both', imax=1), multi, **kw)
+    if cind:
+        for ci in cinds:
+            out += tmpl_spaces(dict(base, cind=ci, ind='none'), ['paras', 'sentence', 'longword'], **kw)
+            out += tmpl_spaces(dict(base, cind=ci, ind='none', bw=False), ['paras'], **kw)
     import os
     if not int(os.environ.get('VERIF_SEED', '0') or 0):
         for v in (1, 2):      # the symbolic positions moved elsewhere in the same sentences
@@ -189,6 +200,9 @@ class WrapHarness(Harness):
         icl = tuple(cfg.get('icl', (1,)))
         ii = gen_indent(I, 'i', imax, icl) if ind in ('ii', 'both') else Txt([])
         si = gen_indent(I, 's', imax, icl) if ind in ('si', 'both') else Txt([])
+        if 'cind' in cfg:     # concrete multi-column indents (hanging indent, bullet): (initial, subsequent)
+            ii = Txt([(ord(c), utf8len(ord(c))) for c in cfg['cind'][0]])
+            si = Txt([(ord(c), utf8len(ord(c))) for c in cfg['cind'][1]])
         return {'text': text, 'W': W, 'ii': ii, 'si': si}
 
     def options(self, I, cfg, inp, W=None):
